@@ -44,6 +44,17 @@ template <class G> static DOut dcall(const G& g, int form, bool arcmode, double 
     g.GenDirect(lat1, lon1, azi1, arcmode, len, Geodesic::GEODESICSCALE, t, t, t, t, t, o.M12, o.M21, t);
     g.GenDirect(lat1, lon1, azi1, arcmode, len, Geodesic::AREA, t, t, t, t, t, t, t, o.S12);
   }
+  else if (form == 5) {
+    // the public overloads Direct / ArcDirect with all outputs
+    if (arcmode) { g.ArcDirect(lat1, lon1, azi1, len, o.lat2, o.lon2, o.azi2, o.s12, o.m12, o.M12, o.M21, o.S12); o.a12 = len; }
+    else { o.a12 = g.Direct(lat1, lon1, azi1, len, o.lat2, o.lon2, o.azi2, o.m12, o.M12, o.M21, o.S12); o.s12 = len; }
+  }
+  else if (form == 6) {
+    // Line, GenSetDistance (SetDistance / SetArc), then the public Position / ArcPosition overloads at Distance() / Arc()
+    auto l = g.Line(lat1, lon1, azi1, Geodesic::ALL); l.GenSetDistance(arcmode, len);
+    if (arcmode) { l.ArcPosition(l.Arc(), o.lat2, o.lon2, o.azi2, o.s12, o.m12, o.M12, o.M21, o.S12); o.a12 = l.Arc(); }
+    else { o.a12 = l.Position(l.Distance(), o.lat2, o.lon2, o.azi2, o.m12, o.M12, o.M21, o.S12); o.s12 = l.Distance(); }
+  }
   else {
     // a line created with just the capability needed, asked for just that quantity
     double t;
@@ -123,15 +134,16 @@ int main(int argc, char** argv) {
   auto kappa = [&](const geodtab::Ell& E) { return std::max(E.e.f1, 1 / E.e.f1); };
 
   // =========================================================================================== direct + split
-  const std::vector<double> lats = geodlat::direct_lats(), azis = geodlat::direct_azis();
-  const std::vector<geodlat::LSpec> lspec = geodlat::direct_lengths();
-  const std::vector<double> splits = T ? std::vector<double>{0.1, 0.5, 0.9, 1.3} : std::vector<double>{0.5};
+  const std::vector<double> lats = geodlat::direct_lats(T), azis = geodlat::direct_azis(T);
+  const std::vector<geodlat::LSpec> lspec = geodlat::direct_lengths(T);
+  const int nforms = T ? 7 : 5;
+  const std::vector<double> splits = T ? std::vector<double>{0.5, 0.1, 0.9, 1.3, -0.5, 0.25, 0.75, 2.0} : std::vector<double>{0.5};
   ctx.sub("direct");
-  ctx.bound("direct.ellipsoids", T ? "all 21 of models/geod_tables.hpp" : "8: wgs84, f=+-0.02, f=+-0.1, b/a in {1/2, 2, 1/16}");
-  ctx.bound("direct.lat1", geodlat::direct_lat_text()); ctx.bound("direct.azi1", geodlat::direct_azi_text()); ctx.bound("direct.length", geodlat::direct_len_text(T));
+  ctx.bound("direct.ellipsoids", geodlat::ellipsoid_text(T));
+  ctx.bound("direct.lat1", geodlat::direct_lat_text(T)); ctx.bound("direct.azi1", geodlat::direct_azi_text(T)); ctx.bound("direct.length", geodlat::direct_len_text(T));
   ctx.bound("direct.lon1", "179.5");
-  ctx.bound("direct.config", "{series (|f|<=0.2), exact, exact=true} x {GenDirect, Line+GenPosition, (Arc)DirectLine+GenPosition at s13/a13} with outmask REDUCEDLENGTH|GEODESICSCALE|AREA, + GenDirect and minimal-capability Line+GenPosition with each of m12 / (M12,M21) / S12 requested on its own");
-  ctx.bound("direct.split", T ? "addition rules at t in {0.1,0.5,0.9,1.3} of every distance-specified line with 1e-4 Q <= |s13| <= 8 Q" : "addition rules at t = 0.5 of every distance-specified line with 1e-4 Q <= |s13| <= 8 Q");
+  ctx.bound("direct.config", std::string("{series (|f|<=0.2), exact, exact=true} x {GenDirect, Line+GenPosition, (Arc)DirectLine+GenPosition at s13/a13" + std::string(T ? ", public Direct/ArcDirect with all outputs, Line+GenSetDistance+public Position/ArcPosition at Distance()/Arc()" : "") + "} with outmask REDUCEDLENGTH|GEODESICSCALE|AREA, + GenDirect and minimal-capability Line+GenPosition with each of m12 / (M12,M21) / S12 requested on its own"));
+  ctx.bound("direct.split", T ? "addition rules at t in {-0.5,0.1,0.25,0.5,0.75,0.9,1.3,2.0} of every distance-specified line with 1e-4 Q <= |s13| <= 8 Q" : "addition rules at t = 0.5 of every distance-specified line with 1e-4 Q <= |s13| <= 8 Q");
   const double lon1 = 179.5;
   for (size_t ei = 0; ei < ells.size(); ++ei) {
     const geodtab::Ell& E = ells[ei];
@@ -166,7 +178,7 @@ int main(int argc, char** argv) {
           if (sv == 0 && !E.series) continue;
           const ld cond = std::max<ld>(std::max<ld>(1, fabsl(p.m12) / E.e.a), std::max(fabsl(p.M12), fabsl(p.M21)));     // growth of the Jacobi fields (> 1 on prolate ellipsoids)
           const ld tm = KM_m[sv] * tolpos(E, sv) * sc * cond, tM = KM_M[sv] * tolpos(E, sv) * sc * cond * kappa(E) / E.e.a, tS = tolS12(E, sv, sc, hypotl(p.r[0], p.r[1])); const char* svn = svname(sv);
-          for (int form = 0; form < 5; ++form) {
+          for (int form = 0; form < nforms; ++form) {
             Ctx::Case cs(ctx);
             DOut o = S.d(sv, form, l.arc, lat1, lon1, azi1, l.v); ++ncalls;
             auto key = [&](const char* k2) { return "e" + std::to_string(ei) + "/la" + std::to_string(li) + "/az" + std::to_string(ai) + "/L" + std::to_string(k) + "/" + svn + "/f" + std::to_string(form) + "/" + k2; };
@@ -189,6 +201,7 @@ int main(int argc, char** argv) {
           }
           // ---- addition rules at split points (points 1, 2, 3 on one geodesic; 2 at t s13)
           if (l.arc || fabsl(l.s) < 1e-4L * E.Q * 0.999L || fabsl(l.s) > 8.001L * E.Q) continue;
+          const ld tm_ = tm, tM_ = tM;
           for (size_t ti = 0; ti < splits.size(); ++ti) {
             Ctx::Case cs(ctx);
             const double s13 = l.v, s12 = splits[ti] * s13, s23 = s13 - s12;
@@ -198,14 +211,17 @@ int main(int argc, char** argv) {
             auto where = [&] { return E.name + " lat1=" + fx(lat1) + " azi1=" + fx(azi1) + " s13=" + fx(s13) + " t=" + fmt(splits[ti]) + " " + svn; };
             auto bad = [&](const char* kind, const std::string& msg) { ctx.fail(key(kind), where() + ": " + msg, {{"kind", kind}, {"ell", E.name}, {"solver", svn}}); };
             const ld m12 = a.m12, M12 = a.M12, M21 = a.M21, m23 = b.m12, M23 = b.M12, M32 = b.M21, m13 = c.m12, M13 = c.M12, M31 = c.M21;
+            // split points outside [-0.3, 1.3] s13 make a segment longer than s13: the half-circuit factor follows the longest segment
+            const ld tt = splits[ti], ft0 = std::max(fabsl(tt), fabsl(1 - tt)), ft = ft0 > 1.3L ? ft0 : 1;
+            const ld tm = tm_ * ft, tM = tM_ * ft;
             // a13 = a12 + a23, S13 = S12 + S23
             ld ea = fabsl((ld)c.a12 - ((ld)a.a12 + (ld)b.a12)) * D * E.e.b;       // (b d sigma <= ds)
-            ld tpos = 3 * tolpos(E, sv) * sc;
+            ld tpos = 3 * tolpos(E, sv) * sc * ft;
             ctx.worstf(std::string("split.a13.err_over_tol.") + svn, (double)(ea / (tpos * std::max<ld>(1, E.e.b / E.e.a))), where);
             if (!(ea <= tpos * std::max<ld>(1, E.e.b / E.e.a))) bad("add-a13", "a13 " + fx(c.a12) + " != a12 + a23 = " + fx(a.a12) + " + " + fx(b.a12));
             if (!p.meridional) {
               ld eS = fabsl((ld)c.S12 - ((ld)a.S12 + (ld)b.S12));
-              const ld tS3 = tolS12(E, sv, sc, std::min(rho_of(E, a.lat2), rho_of(E, c.lat2)));
+              const ld tS3 = tolS12(E, sv, sc * ft, std::min(rho_of(E, a.lat2), rho_of(E, c.lat2)));
               ctx.worstf(std::string("split.S13.err_over_tol.") + svn, (double)(eS / (3 * tS3)), where);
               if (!(eS <= 3 * tS3)) bad("add-S13", "S13 " + fx(c.S12) + " != S12 + S23 = " + fx(a.S12) + " + " + fx(b.S12));
             }
@@ -232,7 +248,7 @@ int main(int argc, char** argv) {
 
   // =========================================================================================== inverse
   ctx.sub("inverse");
-  ctx.bound("inverse.pairs", T ? "the C02 pair lattice (models/geod_lattice.hpp: grid 972 + astroid 9x9 and strip 348 + short 240 + equatorial 8) per ellipsoid, 21 ellipsoids"
+  ctx.bound("inverse.pairs", T ? "the C02 pair lattice (models/geod_lattice.hpp: grid 13500 from 3 anchor meridians + astroid 25x25 and strip from 10 base latitudes 7150 + short 2464 + equatorial 45) per ellipsoid, 33 ellipsoids"
                                : "the C02 pair lattice with the 5x5 astroid grid, 8 ellipsoids");
   ctx.bound("inverse.config", "{series, exact, exact=true} x {GenInverse, InverseLine + GenPosition(Distance())}; ends swapped for the reversal rules");
   for (size_t ei = 0; ei < ells.size(); ++ei) {
@@ -314,8 +330,9 @@ int main(int argc, char** argv) {
 
   // =========================================================================================== polygons
   ctx.sub("polygon");
-  ctx.bound("polygon.points", "lat in {-50, 10, 65} x lon in {-170, -60, 20, 130} (12 points; no edge nearly antipodal; edges straddle +-180; pole-enclosing polygons included)");
-  ctx.bound("polygon.space", T ? "all 220 triangles and all 495 4-subsets as quadrilaterals, both orientations, per ellipsoid (21) and solver" : "all 56 triangles of the first 8 points, both orientations, per ellipsoid (8) and solver");
+  ctx.bound("polygon.points", T ? "lat in {-50, 10, 65} x lon in {-170, -60, 20, 130} + lat 35 x lon in {-125, -15, 65, 155} (16 points; no edge nearly antipodal; edges straddle +-180; pole-enclosing polygons included)"
+                                : "lat in {-50, 10} x lon in {-170, -60, 20, 130} (8 points; edges straddle +-180; pole-enclosing polygons included)");
+  ctx.bound("polygon.space", T ? "all 560 triangles and all 1820 4-subsets as quadrilaterals, both orientations, per ellipsoid (33) and solver" : "all 56 triangles of the first 8 points, both orientations, per ellipsoid (8) and solver");
   for (size_t ei = 0; ei < ells.size(); ++ei) {
     const geodtab::Ell& E = ells[ei];
     if (!T && !E.quick) continue;
@@ -334,6 +351,7 @@ int main(int argc, char** argv) {
       std::vector<geodlat::Pt> pts;
       for (double la : {-50.0, 10.0, 65.0}) for (double lo : {-170.0, -60.0, 20.0, 130.0}) pts.push_back({la, lo});
       if (!T) pts.resize(8);
+      else for (double lo : {-125.0, -15.0, 65.0, 155.0}) pts.push_back({35.0, lo});
       const size_t n = pts.size();
       std::vector<double> Sl(n * n, 0); std::vector<ld> So(n * n, 0), xyz(3 * n);
       for (size_t i = 0; i < n; ++i) { ld N[3], Ev[3]; E.e.frame(pts[i].lat, pts[i].lon, &xyz[3 * i], N, Ev); }
